@@ -584,6 +584,10 @@ func (vfs *MemFS) OpenFile(name string, flag int, perm fs.FileMode) (avfs.File, 
 		c.mu.Lock()
 		defer c.mu.Unlock()
 
+		if om&avfs.OpenCreateExcl != 0 {
+			return (*MemFile)(nil), &fs.PathError{Op: op, Path: name, Err: vfs.err.FileExists}
+		}
+
 		if om&avfs.OpenWrite != 0 {
 			return (*MemFile)(nil), &fs.PathError{Op: op, Path: name, Err: vfs.err.IsADirectory}
 		}
